@@ -9,8 +9,30 @@
   action takes its identity cache and its table from is an extracted fact (`cacheScope`, `tableScope`).
 
   Quantifiers: every heap, every limits, every list of frames / watches, every number of actions at one location.
-  Domain of the fault model: `Exception`-class raises (`safe_str` catches `Exception`: `c06_guard_class`); a
-  `BaseException` raised by a host `__str__` is outside the claimed domain.
+
+  DOMAIN of "every heap" (what the raw facts of `Heap.PyObj` can express): for every object, `str`, `len`, `tuple`,
+  `isinstance(·, Exception)`, `.args`, `hasattr(·, '__dict__')`, `.__dict__` and — for the local named `self` —
+  `.__class__.__name__` may each raise (`Exception` class: `safe_str` catches `Exception`, `c06_guard_class`; a
+  `BaseException` raised by a host `__str__` is outside).  ASSUMED NOT TO RAISE, because the model has no failing outcome
+  for them (listed in the header of Extracted/Collector.lean; each aborts a snapshot on the real code, probe
+  notes/probes/p20_c06_assumed_not_to_raise.py): `type(o).__name__` / `str(type(o))` under a hostile metaclass; `startswith`
+  / slicing of a key that is an instance of a str SUBCLASS overriding them; `len` / slicing of the text `str(o)` returns when
+  that is an instance of a str subclass; iteration / lookup of an exact dict whose key's `__hash__` raises after insertion
+  (the code then records the dict without children; the model lists them).
+
+  "… and delivered": there is NO C06 theorem about delivery.  The check hands every snapshot the real collector produced to
+  the real `deep.push.convert_snapshot` and requires a message (harness, `judge_wire`); conversion totality on well-formed
+  text is C08's theorem (`c08_total`), not composed here (the two models have separate snapshot types).
+
+  INDEPENDENCE: `processActions` has exactly two channels from one action to the next — the identity cache and the table of
+  the trigger (`TrigState`).  `c06_independent` and its corollaries are MODEL LEMMAS: once the extracted scopes say
+  `perAction` they follow from the definition.  Channels that are NOT in the model and what rules them out:
+    the limits object                — `configFreshPerRead`, `processorsGetConfig` (extracted, `c06_config_channels`); across
+                                       threads the forced 2-thread stream of C05
+    TriggerContext (result list, callbacks, frame) — append-only list of results, one `SendSnapshotActionResult` per action:
+                                       not extracted; covered by the differential run only (every action is re-run ALONE on
+                                       the same objects and its snapshot must be equal)
+    the FrameCollector               — one per action (`FrameCollector(self, frame)` in `_process_action`): differential run only
 -/
 import DeepModel.Proofs.CollectorSnap
 import DeepModel.Proofs.CollectorShape
@@ -28,17 +50,29 @@ theorem c06_guard_class : safeStrCatches = "Exception" := by decide
 
 /-! ### totality -/
 
-/-- the two guards the totality rests on (extracted; re-checked against the source on every run): `variable_to_string`
-    catches `Exception` around `len(value)`, `process_child_nodes` catches `Exception` around `find_children_for_parent` -/
-theorem c06_guards : lenGuarded = true ∧ childrenGuarded = true := by decide
+/-- tripwire: the three guards the totality rests on (extracted; re-checked against the source on every run): `variable_to_string`
+    catches `Exception` around `len(value)`, `process_child_nodes` catches `Exception` around `find_children_for_parent`,
+    `_process_frame` reads the class name of `self` inside try/except -/
+theorem c06_guards : lenGuarded = true ∧ childrenGuarded = true ∧ selfClassGuarded = true := by decide
 
 /-- the statement at full strength: no heap makes a snapshot action fail -/
-def Total : Prop := ∀ (H : Heap) (a : ActionIn), ∃ s, collect H a = .ok s
+def Total : Prop := ∀ (H : Heap) (a : ActionIn), ∃ s, snapshotAction H a = .ok s
 
 /-- **total** — for every heap whatsoever — objects whose `str`, `len`, `tuple()`, `isinstance`, `.args`,
     `hasattr(·, '__dict__')`, `.__dict__` raise (Exception class), objects without `__dict__`, non-string keys, iterators,
     cycles — every limits, every frames, every watches, log fields and capture value: the action produces its snapshot. -/
-theorem c06_total : Total := fun H a => collect_total_all H a
+theorem c06_total : Total := fun H a => by
+  rw [snapshotAction_eq_collect]; exact collect_total_all H a
+
+/-- the class-name reads never decide the outcome: the action is its collection -/
+theorem c06_action_is_collect (H : Heap) (a : ActionIn) : snapshotAction H a = collect H a :=
+  snapshotAction_eq_collect H a
+
+/-- a frame whose `self` cannot tell its class (`__getattribute__` raises) is collected like any other -/
+theorem c06_self_class_contained :
+    (match snapshotAction Ex.selfHostile ⟨⟨40, 1024, 10, 5⟩, Ex.frame0, []⟩ with
+      | .ok s => s.frames.map (·.map (fun r => (r.vid, r.name)))
+      | .failed _ => []) = [[(2, "self"), (3, "q")]] := by decide
 
 /-- what a raising probe costs: the value is recorded (type, text) **without children**, nothing else is lost.
     `h` is a slotted object whose `__getattr__` raises RuntimeError (so `hasattr(h, '__dict__')` raises): both locals are
@@ -93,7 +127,7 @@ theorem c06_entry_local (H : Heap) (a : ActionIn) (s : Snapshot) (h : collect H 
     `str` (value or raise) and the placeholder text produce the same outcome up to the `value` / `truncated` fields of the
     entries: same failure or same frames, same ids, same references, same child lists, same watch results. -/
 theorem c06_shape_independent (H H' : Heap) (hs : SameShape H H') (a : ActionIn) :
-    eraseO (collect H a) = eraseO (collect H' a) := collect_shape hs a
+    eraseO (snapshotAction H a) = eraseO (snapshotAction H' a) := snapshotAction_shape hs a
 
 /-- a `str` that starts to raise never turns a snapshot into a failure (nor the other way round) -/
 theorem c06_str_never_fails (H H' : Heap) (hs : SameShape H H') (a : ActionIn) :
@@ -175,14 +209,17 @@ example :
 
 /-! ### independence -/
 
-/-- each action of a trace event collects into its own identity cache and its own table (re-checked against the
-    source on every run) -/
+/-- tripwire: each action of a trace event collects into its own identity cache and its own table (re-checked against
+    the source on every run) -/
 theorem c06_scopes : cacheScope = .perAction ∧ tableScope = .perAction := by decide
 
-/-- **independent** — the snapshots of the actions of one trace event are the snapshots each action would produce on
+/-- tripwire: a new limits object on every read, every processor is given its config (no shared default instance) -/
+theorem c06_config_channels : configFreshPerRead = true ∧ processorsGetConfig = true := by decide
+
+/-- model lemma: **independent** — the snapshots of the actions of one trace event are the snapshots each action would produce on
     its own: whatever the other actions are, whatever they collected before, whatever state the trigger hands on. -/
 theorem c06_independent (H : Heap) (ts : TrigState) (as : List ActionIn) :
-    processActions H ts as = as.map (collect H) := by
+    processActions H ts as = as.map (snapshotAction H) := by
   induction as generalizing ts with
   | nil => rfl
   | cons a as ih =>
@@ -190,18 +227,19 @@ theorem c06_independent (H : Heap) (ts : TrigState) (as : List ActionIn) :
     rw [ih]
     have h1 : cacheScope = .perAction := c06_scopes.1
     have h2 : tableScope = .perAction := c06_scopes.2
-    simp only [h1, h2, collect]
+    simp only [h1, h2, collect, snapshotAction]
 
-/-- corollary: one action's snapshot does not change when another action is put before it or after it -/
+
+/-- model lemma: one action's snapshot does not change when another action is put before it or after it -/
 theorem c06_others_do_not_matter (H : Heap) (ts : TrigState) (pre post : List ActionIn) (a : ActionIn) :
-    (processActions H ts (pre ++ a :: post))[pre.length]? = some (collect H a) := by
+    (processActions H ts (pre ++ a :: post))[pre.length]? = some (snapshotAction H a) := by
   rw [c06_independent]
   simp
 
-/-- corollary: two actions with the same limits and the same watches at one location get equal snapshots (equal,
+/-- model lemma: two actions with the same limits and the same watches at one location get equal snapshots (equal,
     non-emptied frames; nothing is shared: each is a value of its own) -/
 theorem c06_same_location_equal (H : Heap) (ts : TrigState) (a : ActionIn) :
-    processActions H ts [a, a] = [collect H a, collect H a] := by
+    processActions H ts [a, a] = [snapshotAction H a, snapshotAction H a] := by
   rw [c06_independent]; rfl
 
 /-- with a cache handed from action to action (the code before the fix of D8) the second action's frame is empty:
